@@ -2,8 +2,10 @@ package main
 
 import (
 	"context"
+	"errors"
 	"io"
 	"sync"
+	"time"
 
 	mqtt "github.com/at-wat/mqtt-go"
 )
@@ -20,6 +22,8 @@ type recTransport struct {
 	writes  [][]byte
 	onWrite func(p []byte) // called outside the lock after recording
 	readReq []int          // size of each Read request
+	waiting bool           // the reader is blocked in Read with nothing buffered
+	refuse  bool           // writes fail although the transport is open
 }
 
 func newRecTransport() *recTransport {
@@ -33,8 +37,10 @@ func (t *recTransport) Read(p []byte) (int, error) {
 	defer t.mu.Unlock()
 	t.readReq = append(t.readReq, len(p))
 	for len(t.in) == 0 && !t.inEOF && !t.closed {
+		t.waiting = true
 		t.cond.Wait()
 	}
+	t.waiting = false
 	if t.closed {
 		return 0, io.ErrClosedPipe
 	}
@@ -51,6 +57,10 @@ func (t *recTransport) Write(p []byte) (int, error) {
 	if t.closed {
 		t.mu.Unlock()
 		return 0, io.ErrClosedPipe
+	}
+	if t.refuse {
+		t.mu.Unlock()
+		return 0, errors.New("scripted write refusal")
 	}
 	cp := append([]byte{}, p...)
 	t.out = append(t.out, cp...)
@@ -127,4 +137,25 @@ func connectRec(c *mqtt.BaseClient, tr *recTransport, opts ...mqtt.ConnectOption
 	tr.writes = nil
 	tr.mu.Unlock()
 	return sp, err
+}
+
+// waitDrained waits until the reader goroutine has consumed everything fed so far and blocks in
+// Read again (or the transport is closed / at EOF).
+func (t *recTransport) waitDrained() {
+	deadline := time.Now().Add(5 * time.Second)
+	for {
+		t.mu.Lock()
+		ok := (len(t.in) == 0 && t.waiting) || t.closed || (len(t.in) == 0 && t.inEOF)
+		t.mu.Unlock()
+		if ok || time.Now().After(deadline) {
+			return
+		}
+		time.Sleep(100 * time.Microsecond)
+	}
+}
+
+func (t *recTransport) setRefuse(on bool) {
+	t.mu.Lock()
+	t.refuse = on
+	t.mu.Unlock()
 }
